@@ -118,6 +118,9 @@ type wctx struct {
 	info    *types.Info
 	streams map[types.Object]bool // the stream parameter and its aliases
 	recv    types.Object
+	// inlined helper only: what the caller passed for a parameter (buffer size / wire kind of the argument)
+	bindRaw  map[types.Object]string
+	bindKind map[types.Object][]string
 }
 
 func (w *wctx) mentionsStream(e ast.Expr) bool {
@@ -311,13 +314,16 @@ func (w *wctx) stmt(s ast.Stmt, in sigSet) (closed, open sigSet) {
 		all, op := w.stmts(v.List, in)
 		return subtract(all, op), op
 	case *ast.ReturnStmt:
+		if len(v.Results) == 1 {
+			return cross(in, w.exprPaths(v.Results[0])), nil
+		}
 		var el []string
 		for _, e := range v.Results {
 			el = append(el, w.exprElems(e)...)
 		}
 		return appendAll(in, el), nil
 	case *ast.ExprStmt:
-		return nil, appendAll(in, w.exprElems(v.X))
+		return nil, cross(in, w.exprPaths(v.X))
 	case *ast.AssignStmt:
 		var el []string
 		for _, e := range v.Rhs {
@@ -438,12 +444,20 @@ func (w *wctx) stmt(s ast.Stmt, in sigSet) (closed, open sigSet) {
 		var alts []string
 		var cl sigSet
 		anyOpen := false
+		hasDefault := false
 		for _, cs := range body.List {
 			cc, ok := cs.(*ast.CaseClause)
 			if !ok {
 				continue
 			}
+			if cc.List == nil {
+				hasDefault = true
+			}
 			all, op := w.stmts(cc.Body, sigSet{{}})
+			if w.returnsFreshError(cc.Body) {
+				// validation failure: not a wire form
+				continue
+			}
 			cl = append(cl, subtract(all, op)...)
 			if len(op) > 0 {
 				anyOpen = true
@@ -451,6 +465,10 @@ func (w *wctx) stmt(s ast.Stmt, in sigSet) (closed, open sigSet) {
 					alts = append(alts, op.dedupe().render())
 				}
 			}
+		}
+		if !hasDefault {
+			// no clause may match: control continues after the switch
+			anyOpen = true
 		}
 		closed = cross(cur, nonEmptyOrSelf(cl))
 		if len(cl) == 0 {
@@ -588,30 +606,52 @@ func (w *wctx) ioCall(call *ast.CallExpr) ([]string, bool) {
 		}
 	}
 	// helper functions of the module that receive the stream: inline
-	if fobj := calleeObj(info, call); fobj != nil {
-		streamArg := -1
-		for i, a := range call.Args {
-			if w.isStream(a) {
-				streamArg = i
-			}
+	if sub, ok := w.helperPaths(call); ok {
+		if len(sub) == 1 {
+			return sub[0], true
 		}
-		if streamArg >= 0 {
-			if hm, ok := w.x.methods[fobj]; ok && w.x.depth < 4 && fobj.Type().(*types.Signature).Recv() == nil {
-				w.x.depth++
-				defer func() { w.x.depth-- }()
-				// the helper's own stream parameter is the one at streamArg
-				sub := w.x.helperSig(hm, streamArg)
-				if len(sub) == 1 {
-					return sub[0], true
-				}
-				if len(sub) > 1 {
-					return []string{"Alt{" + sub.render() + "}"}, true
-				}
-				return nil, true
-			}
+		if len(sub) > 1 {
+			return []string{"Alt{" + sub.render() + "}"}, true
 		}
+		return nil, true
 	}
 	return nil, false
+}
+
+// helperPaths: the wire paths of a module function (not a method) that is handed the stream.
+func (w *wctx) helperPaths(call *ast.CallExpr) (sigSet, bool) {
+	fobj := calleeObj(w.info, call)
+	if fobj == nil {
+		return nil, false
+	}
+	streamArg := -1
+	for i, a := range call.Args {
+		if w.isStream(a) {
+			streamArg = i
+		}
+	}
+	if streamArg < 0 {
+		return nil, false
+	}
+	hm, ok := w.x.methods[fobj.Origin()]
+	if !ok || w.x.depth >= 4 || fobj.Type().(*types.Signature).Recv() != nil {
+		return nil, false
+	}
+	w.x.depth++
+	defer func() { w.x.depth-- }()
+	// the helper's own stream parameter is the one at streamArg
+	return w.x.helperSig(hm, streamArg, w, call.Args), true
+}
+
+// exprPaths: like exprElems, but a helper call that is the whole expression
+// contributes each of its paths separately (return helper(w, ...)).
+func (w *wctx) exprPaths(e ast.Expr) sigSet {
+	if call, ok := ast.Unparen(e).(*ast.CallExpr); ok {
+		if sub, ok := w.helperPaths(call); ok && len(sub) > 1 {
+			return sub
+		}
+	}
+	return sigSet{w.exprElems(e)}
 }
 
 func (w *wctx) mentionsStreamDeep(e ast.Expr) bool {
@@ -631,18 +671,39 @@ func calleeObj(info *types.Info, call *ast.CallExpr) *types.Func {
 			o, _ := info.Uses[id].(*types.Func)
 			return o
 		}
+	case *ast.IndexListExpr:
+		if id, ok := f.X.(*ast.Ident); ok {
+			o, _ := info.Uses[id].(*types.Func)
+			return o
+		}
 	}
 	return nil
 }
 
-func (x *wireX) helperSig(m *wireMethod, streamIdx int) sigSet {
+func (x *wireX) helperSig(m *wireMethod, streamIdx int, caller *wctx, args []ast.Expr) sigSet {
 	// find the streamIdx-th parameter object
 	idx := 0
 	var sp types.Object
+	bindRaw := map[types.Object]string{}
+	bindKind := map[types.Object][]string{}
 	for _, f := range m.decl.Type.Params.List {
 		for _, n := range f.Names {
+			po := m.pkg.TypesInfo.Defs[n]
 			if idx == streamIdx {
-				sp = m.pkg.TypesInfo.Defs[n]
+				sp = po
+			} else if caller != nil && idx < len(args) && po != nil {
+				// what the caller hands in: a buffer of known size, an element of known wire kind
+				if t := caller.info.TypeOf(args[idx]); t != nil {
+					if sl, ok := t.Underlying().(*types.Slice); ok {
+						if b, ok := sl.Elem().Underlying().(*types.Basic); ok && b.Kind() == types.Uint8 {
+							if rs := caller.rawSize(args[idx]); rs != "RawDyn" {
+								bindRaw[po] = rs
+							}
+						}
+					} else if _, isTP := types.Unalias(deref(po.Type())).(*types.TypeParam); isTP {
+						bindKind[po] = caller.elemOf(stripAddr(args[idx]), "WriteTo")
+					}
+				}
 			}
 			idx++
 		}
@@ -650,7 +711,7 @@ func (x *wireX) helperSig(m *wireMethod, streamIdx int) sigSet {
 	if sp == nil {
 		return nil
 	}
-	w := &wctx{x: x, m: m, info: m.pkg.TypesInfo, streams: map[types.Object]bool{sp: true}}
+	w := &wctx{x: x, m: m, info: m.pkg.TypesInfo, streams: map[types.Object]bool{sp: true}, bindRaw: bindRaw, bindKind: bindKind}
 	paths, _ := w.stmts(m.decl.Body.List, sigSet{{}})
 	return nonEmptyOr(paths.dedupe())
 }
@@ -694,6 +755,10 @@ func typeWidth(t types.Type) string {
 func (w *wctx) rawSize(e ast.Expr) string {
 	e = ast.Unparen(e)
 	switch v := e.(type) {
+	case *ast.Ident:
+		if rs, ok := w.bindRaw[w.info.Uses[v]]; ok {
+			return rs
+		}
 	case *ast.SliceExpr:
 		if v.Low == nil && v.High == nil {
 			t := w.info.TypeOf(v.X)
@@ -727,6 +792,20 @@ func (w *wctx) rawSize(e ast.Expr) string {
 func (w *wctx) elemOf(x ast.Expr, method string) []string {
 	x = ast.Unparen(x)
 	info := w.info
+	if w.bindKind != nil {
+		// P(val) / val / &val / *val where val is a type-parameter-typed parameter of the inlined helper
+		inner := stripAddr(x)
+		if call, ok := inner.(*ast.CallExpr); ok && len(call.Args) == 1 {
+			if tv, ok := info.Types[call.Fun]; ok && tv.IsType() {
+				inner = stripAddr(call.Args[0])
+			}
+		}
+		if id, ok := inner.(*ast.Ident); ok {
+			if k, ok := w.bindKind[info.Uses[id]]; ok {
+				return k
+			}
+		}
+	}
 	// Tuple literal: expand
 	if cl, ok := x.(*ast.CompositeLit); ok {
 		if isNamed(info.TypeOf(cl), pkPath, "Tuple") {
